@@ -143,6 +143,7 @@ structure PropDecl where
   dflt  : Val           -- default value of the declaration
   embInst : Option Name := none   -- value of the EmbeddedInstance qualifier
   embObj  : Bool := false         -- `'EmbeddedObject' in prop.qualifiers`
+  propagated : Bool := false      -- `prop.propagated` of the resolved class (inherited declaration)
   deriving DecidableEq, Repr, Inhabited
 
 structure Cls where
@@ -158,12 +159,16 @@ structure PropV where
   ty    : Name
   isArr : Bool
   val   : Val
+  origin : Option Name := none        -- class_origin
+  quals  : Bool := false              -- the property carries qualifiers
+  propagated : Option Bool := none    -- propagated (stored and returned as given)
   deriving DecidableEq, Repr, Inhabited
 
 /-- CIMInstance without path: classname as given by the client + NocaseDict of properties -/
 structure Inst where
   cls   : Name
   props : List PropV
+  quals : Bool := false               -- the instance carries qualifiers
   deriving DecidableEq, Repr, Inhabited
 
 /-- one item of `InMemoryObjectStore._data`: dict key, and the stored instance with its own path -/
@@ -189,14 +194,22 @@ structure RInst where
   cls   : Name
   path  : Path
   props : List PropV
+  quals : Bool := false
+  deriving DecidableEq, Repr, Inhabited
+
+/-- LocalOnly / IncludeQualifiers / IncludeClassOrigin of GetInstance and EnumerateInstances -/
+structure RetOpts where
+  lo  : Option Bool := none
+  iq  : Option Bool := none
+  ico : Option Bool := none
   deriving DecidableEq, Repr, Inhabited
 
 inductive Op where
   | create (ns : Option Name) (inst : Inst)
   | modify (path : Path) (inst : Inst) (pl : Option (List Name))
   | delete (path : Path)
-  | get (path : Path) (pl : Option (List Name))
-  | enumInsts (ns : Option Name) (cls : Name) (di : Option Bool) (pl : Option (List Name))
+  | get (path : Path) (pl : Option (List Name)) (o : RetOpts := {})
+  | enumInsts (ns : Option Name) (cls : Name) (di : Option Bool) (pl : Option (List Name)) (o : RetOpts := {})
   | enumNames (ns : Option Name) (cls : Name)
   deriving Repr, Inhabited
 
@@ -436,7 +449,7 @@ def stepCreate (r : Repo) (nsArg : Option Name) (inst : Inst) : Repo × Out :=
     | some c =>
       if !(inst.props.all (validProp e.classes c)) then (r, errParam)
       else
-        let i : Inst := { cls := inst.cls, props := adjustNames c inst.props }
+        let i : Inst := { cls := inst.cls, props := adjustNames c inst.props, quals := inst.quals }
         if c.isAssoc then
           match checkRefsCreate r i.props with
           | some ex => (r, .err ex)
@@ -562,7 +575,7 @@ def stepModify (r : Repo) (path : Path) (inst : Inst) (pl : Option (List Name)) 
                 match (if c.isAssoc then checkRefsModify r st.inst.props ps else none) with
                 | some ex => (r, .err ex)
                 | none =>
-                  let ni : Inst := { cls := st.inst.cls, props := updateProps st.inst.props ps }
+                  let ni : Inst := { cls := st.inst.cls, props := updateProps st.inst.props ps, quals := st.inst.quals }
                   let others := if c.isAssoc then multiNs ni.props ns else []
                   if others.isEmpty then
                     -- `instance_store.update(original_instance.path, …)`: KeyError if that is no key
@@ -612,9 +625,50 @@ def filterProps (pl : Option (List Name)) (ps : List PropV) : List PropV :=
   | none => ps
   | some l => ps.filter (fun p => inPl l p.name)
 
+/-- mirrors pywbem_mock/_baseprovider.py: BaseProvider._remove_qualifiers (instance part) -/
+def removeQualifiers (ps : List PropV) : List PropV := ps.map (fun p => { p with quals := false })
+
+/-- mirrors pywbem_mock/_baseprovider.py: BaseProvider._remove_classorigin -/
+def removeClassOrigin (ps : List PropV) : List PropV := ps.map (fun p => { p with origin := none })
+
+/-- what retrieval answers with the configuration the mock ships: properties filtered by the PropertyList,
+    without qualifiers and class origins; no instance qualifiers -/
+def retrieveSimple (pl : Option (List Name)) (i : Inst) : List PropV × Bool :=
+  (removeClassOrigin (removeQualifiers (filterProps pl i.props)), false)
+
+/-- non-propagated property declarations (`get_class(local_only=True)`) -/
+def localDecls (c : Cls) : List PropDecl := c.props.filter (fun d => !d.propagated)
+
+/-- mirrors pywbem_mock/_mainprovider.py: MainProvider._get_instance after the lookup, with the constants
+    INSTANCE_RETRIEVE_LOCAL_ONLY (GetInstance / EnumerateInstances overwrite their LocalOnly argument with it),
+    IGNORE_INSTANCE_IQ_PARAM and IGNORE_INSTANCE_ICO_PARAM as regenerated from the source.
+    `reqCls` = class name of the instance name the lookup was done with. -/
+def getInstancePost (classes : List Cls) (reqCls : Name) (o : RetOpts) (pl : Option (List Name)) (i : Inst) :
+    Except PyExc (List PropV × Bool) :=
+  let localOnly := instanceRetrieveLocalOnly
+  let ps1 := if localOnly then
+      i.props.filter (fun p => match p.origin with | some co => co.isEmpty || co == i.cls | none => true)
+    else i.props
+  let r2 : Except PyExc (List PropV) :=
+    if localOnly then
+      match findCls classes reqCls with
+      | none => .error (.cimError cimErrInvalidClass)
+      | some c => .ok (ps1.filter (fun p => (localDecls c).any (fun d => nameEq d.name p.name)))
+    else .ok ps1
+  match r2 with
+  | .error e => .error e
+  | .ok ps2 =>
+    let ps3 := filterProps pl ps2
+    let stripQ := ignoreInstanceIqParam || !(o.iq.getD false)
+    let ps4 := if stripQ then removeQualifiers ps3 else ps3
+    let q := if stripQ then false else i.quals
+    let stripO := ignoreInstanceIcoParam || !(o.ico.getD false)
+    let ps5 := if stripO then removeClassOrigin ps4 else ps4
+    .ok (ps5, q)
+
 /-- mirrors pywbem_mock/_mainprovider.py: MainProvider.GetInstance, MainProvider._get_instance;
     result path completed as in WBEMConnection.GetInstance -/
-def stepGet (r : Repo) (path : Path) (pl : Option (List Name)) : Repo × Out :=
+def stepGet (r : Repo) (path : Path) (pl : Option (List Name)) (o : RetOpts := {}) : Repo × Out :=
   let ns := effNs r path.ns
   let p := reqPath ns path
   match findNs r ns with
@@ -624,7 +678,10 @@ def stepGet (r : Repo) (path : Path) (pl : Option (List Name)) : Repo × Out :=
     else
       match lookupInst e.insts p with
       | none => (r, errNotFound)
-      | some st => (r, .inst { cls := st.inst.cls, path := p, props := filterProps pl st.inst.props })
+      | some st =>
+        match getInstancePost e.classes p.cls o pl st.inst with
+        | .error ex => (r, .err ex)
+        | .ok x => (r, .inst { cls := st.inst.cls, path := p, props := x.1, quals := x.2 })
 
 /-- `c` is `target` or one of its (transitive) subclasses; walks up the superclass chain with fuel.
     stands for pywbem_mock/_mainprovider.py: MainProvider._get_subclass_list_for_enums (which walks
@@ -649,21 +706,25 @@ def enumPl (c : Cls) (di : Option Bool) (pl : Option (List Name)) : Option (List
     | some l => some ((c.props.map (·.name)).filter (fun n => inPl l n))
 
 /-- `_get_instance(inst.path, …)` for each selected instance; NOT_FOUND if `inst.path` is no key -/
-def enumCollect (ns : Name) (all : List Stored) (pl : Option (List Name)) : List Stored → Except PyExc (List RInst)
+def enumCollect (ns : Name) (classes : List Cls) (o : RetOpts) (all : List Stored) (pl : Option (List Name)) :
+    List Stored → Except PyExc (List RInst)
   | [] => .ok []
   | s :: rest =>
     match lookupInst all s.path with
     | none => .error (.cimError cimErrNotFound)
     | some st =>
-      match enumCollect ns all pl rest with
+      match getInstancePost classes s.path.cls o pl st.inst with
       | .error e => .error e
-      | .ok l => .ok ({ cls := st.inst.cls, path := { st.path with host := none, ns := some ns },
-                        props := filterProps pl st.inst.props } :: l)
+      | .ok x =>
+        match enumCollect ns classes o all pl rest with
+        | .error e => .error e
+        | .ok l => .ok ({ cls := st.inst.cls, path := { st.path with host := none, ns := some ns },
+                          props := x.1, quals := x.2 } :: l)
 
 /-- mirrors pywbem_mock/_mainprovider.py: MainProvider.EnumerateInstances; namespace of the result
     paths set as in WBEMConnection.EnumerateInstances -/
 def stepEnumInsts (r : Repo) (nsArg : Option Name) (cls : Name) (di : Option Bool)
-    (pl : Option (List Name)) : Repo × Out :=
+    (pl : Option (List Name)) (o : RetOpts := {}) : Repo × Out :=
   let ns := effNs r nsArg
   match findNs r ns with
   | none => (r, errNs)
@@ -671,7 +732,7 @@ def stepEnumInsts (r : Repo) (nsArg : Option Name) (cls : Name) (di : Option Boo
     match findCls e.classes cls with
     | none => (r, errClass)
     | some c =>
-      match enumCollect ns e.insts (enumPl c di pl) (e.insts.filter (inEnum e cls)) with
+      match enumCollect ns e.classes o e.insts (enumPl c di pl) (e.insts.filter (inEnum e cls)) with
       | .error ex => (r, .err ex)
       | .ok l => (r, .insts l)
 
@@ -689,8 +750,8 @@ def step (r : Repo) (op : Op) : Repo × Out :=
   | .create ns i => stepCreate r ns i
   | .modify p i pl => stepModify r p i pl
   | .delete p => stepDelete r p
-  | .get p pl => stepGet r p pl
-  | .enumInsts ns c di pl => stepEnumInsts r ns c di pl
+  | .get p pl o => stepGet r p pl o
+  | .enumInsts ns c di pl o => stepEnumInsts r ns c di pl o
   | .enumNames ns c => stepEnumNames r ns c
 
 def run (r : Repo) : List Op → Repo × List Out
